@@ -26,7 +26,8 @@ CLAIM = {
             "class or name into Err. split_inner_class_parent_and_name cuts at the last `$`, returns (parent, inner) in this order, "
             "guarded by exactly: parent non-empty, inner non-empty, parent does not end with `/`, inner contains no `/`; "
             "get_inner_class_name / _parent project component 1 / 0; from_inner_class = parent + `$` + inner.",
-    "note": "Not decided: the inverse law contract(extend(x)) = x, termination of the recursion on cyclic data, behaviour when the "
+    "note": "Known finding (1): contract_inner_class_name does not refuse the first namespace "
+            "(fixes/proposed/C11-contract-first-namespace.md). Not decided: the inverse law contract(extend(x)) = x, termination of the recursion on cyclic data, behaviour when the "
             "mapped name already contains `$`. Trusted: rustc HIR/typeck, ADT tables; spec/quill_inner_class_names.json "
             "(transcribed from the property statement, the comment above extend_inner_class_names and the duke doc comments).",
     "technique": "static analysis: structure-preserving-map conformance by normal-form term comparison; single-write / guard "
